@@ -210,6 +210,8 @@ const CASE_SETS: [&[&str]; 5] = [
     &["x.lz", "X.LZ", "x.Lz"],
     &["m", "M", "t.bin", "T.BIN"],
 ];
+/// Pairs differing only in the case of the STEM (same extension): one pattern keeps both.
+const STEM_SETS: [&[&str]; 3] = [&["Portrait.bin", "portrait.bin"], &["A.lz", "a.lz", "A.cms", "a.cms"], &["Zeta", "zeta", "zeta.bin", "Zeta.bin"]];
 
 struct Table {
     recs: Vec<Vec<u8>>,
@@ -468,6 +470,13 @@ fn history_case(rng: &mut Rng, id: &str, g: &str, lang: &str, nlayers: usize, ma
     // letter case: in one case out of three a set of names that differ only in case
     if rng.chance(1, 3) {
         for n in *rng.pick(&CASE_SETS) {
+            if !names.contains(n) {
+                names.push(*n);
+            }
+        }
+    }
+    if rng.chance(1, 4) {
+        for n in *rng.pick(&STEM_SETS) {
             if !names.contains(n) {
                 names.push(*n);
             }
@@ -955,6 +964,152 @@ fn sibling_world(id: &str, g: &str, lang: &str, d: &str, variant: usize) -> Vec<
     l
 }
 
+/// Entries differing only in ASCII case of the stem, made neighbours by the pattern (`*.bin` drops what
+/// sorts between `Portrait.bin` and `portrait.bin`); in one layer, or one spelling per layer.
+fn casepair_world(id: &str, g: &str, lang: &str, variant: usize) -> Vec<String> {
+    let s0 = vec![b"x".to_vec()];
+    let up: Vec<(String, Ent)> = vec![
+        ("k/Portrait.bin".to_string(), Ent::File(0)),
+        ("k/A.lz".to_string(), Ent::File(0)),
+        ("k/Zeta/In.bin".to_string(), Ent::File(0)),
+        ("k/Q.txt".to_string(), Ent::File(0)),
+        ("Top.bin".to_string(), Ent::File(0)),
+    ];
+    let lo: Vec<(String, Ent)> = vec![
+        ("k/portrait.bin".to_string(), Ent::File(0)),
+        ("k/a.lz".to_string(), Ent::File(0)),
+        ("k/zeta/in.bin".to_string(), Ent::File(0)),
+        ("k/mid.txt".to_string(), Ent::File(0)),
+        ("top.bin".to_string(), Ent::File(0)),
+    ];
+    let both: Vec<(String, Ent)> = up.iter().cloned().chain(lo.iter().cloned()).collect();
+    let trees = match variant {
+        0 => vec![build_tree(&both)],
+        1 => vec![build_tree(&up), build_tree(&lo)],
+        2 => vec![build_tree(&lo), build_tree(&up), vec![]],
+        _ => vec![build_tree(&both), build_tree(&up)],
+    };
+    let mut l = vec![new_line(id, g, lang, &s0, &[None, None, None, None], &trees)];
+    for d in ["k", "", "k/Zeta", "k/zeta"] {
+        for pat in ["*.bin", "**/*.bin", "*.lz", "*", "~", "Zeta/*", "zeta/*"] {
+            let ph = if pat == "~" { "~".to_string() } else { hexs(pat) };
+            l.push(format!("{} list {} {} 0", id, hexs(d), ph));
+        }
+        l.push(format!("{} subdirs {} 0", id, hexs(d)));
+    }
+    l
+}
+
+/// What the property's configuration for game `g` parses a text / bin archive with.
+fn spec_cfg(g: &str) -> (TextArchiveFormat, Endian) {
+    if is_lz10_game(g) {
+        (TextArchiveFormat::ShiftJIS, Endian::Big)
+    } else {
+        (TextArchiveFormat::Unicode, Endian::Little)
+    }
+}
+fn edit_text(t: &mut TextArchive, edit: usize) {
+    match edit {
+        1 => t.delete_message("MID_A"),
+        2 => t.set_title("Nt".to_string()),
+        3 => t.set_message("MID_B", "Zz"),
+        _ => {}
+    }
+}
+fn edit_bin(a: &mut BinArchive, edit: usize) {
+    if edit == 1 {
+        let _ = a.write_u8(0, 0x7F);
+    }
+}
+/// parse -> edit -> serialize with the standalone codecs (the graph of the abstract codec for the table).
+fn reencode(g: &str, kind: char, b: &[u8], edit: usize) -> Option<Option<Vec<u8>>> {
+    let (fmt, e) = spec_cfg(g);
+    let r = no_panic(|| {
+        if kind == 't' {
+            match TextArchive::from_bytes(b, fmt, e) {
+                Ok(mut t) => {
+                    edit_text(&mut t, edit);
+                    Some(t.serialize().ok())
+                }
+                Err(_) => None,
+            }
+        } else {
+            match BinArchive::from_bytes(b, e) {
+                Ok(mut a) => {
+                    edit_bin(&mut a, edit);
+                    Some(a.serialize().ok())
+                }
+                Err(_) => None,
+            }
+        }
+    });
+    r.unwrap_or(None)
+}
+
+/// Typed read -> edit -> typed write: the archive is read from a file that exists only in a LOWER layer and
+/// written back (a) unmodified, (b) after delete_message, (c) after set_title, (d) after set_message (bin:
+/// unmodified / after write_u8); the top layer must then hold the re-encoded file.
+fn rw_case(rng: &mut Rng, id: &str, g: &str, lang: &str) -> Vec<String> {
+    let (mut s0, arch) = base_payloads(rng);
+    let mut extra: Vec<String> = Vec::new();
+    let mut low: Vec<(String, Ent)> = Vec::new();
+    let mut ops: Vec<String> = Vec::new();
+    for (k, a) in arch.iter().enumerate() {
+        let i = match a {
+            Some(i) => *i,
+            None => continue,
+        };
+        let kind = if k < 2 { 'b' } else { 't' };
+        let nedits = if kind == 't' { 4 } else { 2 };
+        for edit in 0..nedits {
+            let src = s0[i].clone();
+            match reencode(g, kind, &src, edit) {
+                None => {}
+                Some(None) => extra.push(format!("r{}.{}{}=!", i, kind, edit)),
+                Some(Some(b)) => {
+                    let j = match s0.iter().position(|x| *x == b) {
+                        Some(j) => j,
+                        None => {
+                            s0.push(b);
+                            s0.len() - 1
+                        }
+                    };
+                    extra.push(format!("r{}.{}{}=p{}", i, kind, edit, j));
+                }
+            }
+            let path = format!("t/{}{}_{}.bin", kind, k, edit);
+            low.push((path.clone(), Ent::File(i)));
+            let loc = if edit % 2 == 1 { "1" } else { "0" };
+            let (src_p, dst_p) = (path.clone(), path.clone());
+            if loc == "1" {
+                if let Some(q) = localized(g, lang, &path) {
+                    low.push((q, Ent::File(i)));
+                }
+            }
+            let opn = if kind == 't' { "rw_text" } else { "rw_bin" };
+            ops.push(format!("{} {} {} {} {}", opn, hexs(&src_p), hexs(&dst_p), edit, loc));
+            ops.push(format!("read {} {}", hexs(&dst_p), loc));
+            ops.push(format!("{} {} {}", if kind == 't' { "read_text" } else { "read_archive" }, hexs(&dst_p), loc));
+            // second use: the file now exists in the top layer
+            // (read from the `_0` file, whose content is the unmodified archive in every layer)
+            let src0 = format!("t/{}{}_0.bin", kind, k);
+            ops.push(format!("{} {} {} {} 0", opn, hexs(&src0), hexs(&format!("t/copy{}{}.bin", k, edit)), (edit + 1) % nedits));
+        }
+    }
+    let trees = vec![build_tree(&low), build_tree(&[("t".to_string(), Ent::Dir)])];
+    let base = new_line(id, g, lang, &s0, &arch, &trees);
+    // append the re-encoding graph to the `A` field
+    let mut f: Vec<String> = base.split(' ').map(|x| x.to_string()).collect();
+    if !extra.is_empty() {
+        f[6] = format!("{},{}", f[6], extra.join(","));
+    }
+    let mut l = vec![f.join(" ")];
+    for o in ops {
+        l.push(format!("{} {}", id, o));
+    }
+    l
+}
+
 /// Exact counts: a directory holding exactly `c` entries (spread over two layers, some in both, every
 /// fifth a directory), listed once; one tiny world per count.
 fn count_world(id: &str, g: &str, lang: &str, c: usize) -> Vec<String> {
@@ -1101,6 +1256,17 @@ pub fn gen(seed: u64, tier: &str) -> Vec<String> {
         }
         let id = next_id(&mut n);
         lines.extend(subset_world(&id, "FE10", "EnglishNA", &["a", "m", "z"], &[code & 7, code >> 3], "0"));
+    }
+    for variant in 0..4 {
+        let id = next_id(&mut n);
+        lines.extend(casepair_world(&id, GAMES[variant % 5], "EnglishNA", variant));
+    }
+    for (gi, g) in GAMES.iter().take(5).enumerate() {
+        if !thorough && gi % 2 == (seed as usize) % 2 && gi != 3 {
+            continue;
+        }
+        let id = next_id(&mut n);
+        lines.extend(rw_case(&mut rng, &id, g, if gi % 2 == 0 { "EnglishNA" } else { "French" }));
     }
     for (di, d) in ["face", "a", "x.lz", "é"].iter().enumerate() {
         for variant in 0..4 {
@@ -1419,6 +1585,30 @@ pub fn run_line(st: &mut super::State, line: &str) -> String {
         "write_text" => {
             let k = parse_pidx(arg(3));
             res_unit(no_panic(|| fs.write_text_archive(&unhexs(arg(2)), &text_archive(k), loc_at(4))))
+        }
+        "rw_text" | "rw_bin" => {
+            let (src, dst) = (unhexs(arg(2)), unhexs(arg(3)));
+            let edit: usize = arg(4).parse().unwrap_or(0);
+            let loc = loc_at(5);
+            if f[1] == "rw_text" {
+                match no_panic(|| fs.read_text_archive(&src, loc)) {
+                    Err(_) => "panic".to_string(),
+                    Ok(Err(e)) => format!("err {}", err_class(&e)),
+                    Ok(Ok(mut t)) => {
+                        edit_text(&mut t, edit);
+                        res_unit(no_panic(|| fs.write_text_archive(&dst, &t, loc)))
+                    }
+                }
+            } else {
+                match no_panic(|| fs.read_archive(&src, loc)) {
+                    Err(_) => "panic".to_string(),
+                    Ok(Err(e)) => format!("err {}", err_class(&e)),
+                    Ok(Ok(mut a)) => {
+                        edit_bin(&mut a, edit);
+                        res_unit(no_panic(|| fs.write_archive(&dst, &a, loc)))
+                    }
+                }
+            }
         }
         "cfg" => {
             let e = match fs.endian() {
